@@ -14,10 +14,12 @@ package sm9
 // by panicking, sm3.Kdf).
 //@ func Decrypt property C13,C10
 //@   requires priv != nil && priv.internal != nil && len(ciphertext) <= 4000000000
+//@   inlinecall sm3.New
 //@   heapnonnil
 //@   modifies everything
 //@ func DecryptASN1 property C13,C10
 //@   requires priv != nil && priv.internal != nil && len(ciphertext) <= 4000000000
+//@   inlinecall sm3.New
 //@   heapnonnil
 //@   modifies everything
 //@ func UnwrapKey property C13
